@@ -392,7 +392,7 @@ impl Scenario for C11Threads {
                     arr,
                     backend: w.pick(&backends).clone(),
                     files: w.chance(1, 3),
-                    bp: BuilderPath { output_first: w.chance(1, 2), batch_paths: w.chance(1, 2), swap_backend: w.chance(1, 6), swap_late: false },
+                    bp: BuilderPath { output_first: w.chance(1, 2), batch_paths: w.chance(1, 2), swap_backend: w.chance(1, 6), swap_late: false, legacy_path: false },
                     to_file: false,
                 });
             }
